@@ -87,10 +87,25 @@ async fn handle_connection(
             // handler set its own; no response query buffer either way.
             let echo = crate::message::response_echo_query(&resp, view.query);
             if let Some(dur) = write_timeout {
-                timeout(dur, write_view_response(&mut writer, &resp, echo))
-                    .await
-                    .ok();
-                timeout(dur, writer.flush()).await.ok();
+                // A write that timed out or failed may have left part of the
+                // frame on the wire; anything written after it would be parsed
+                // by the peer as the rest of that frame. End the connection
+                // (like the blocking server does) instead of carrying on.
+                let written = timeout(dur, async {
+                    write_view_response(&mut writer, &resp, echo).await?;
+                    writer.flush().await?;
+                    Ok::<(), RepeError>(())
+                })
+                .await;
+                match written {
+                    Ok(result) => result?,
+                    Err(_) => {
+                        return Err(RepeError::Io(std::io::Error::new(
+                            std::io::ErrorKind::TimedOut,
+                            "response write timed out",
+                        )));
+                    }
+                }
             } else {
                 write_view_response(&mut writer, &resp, echo).await?;
                 writer.flush().await?;
